@@ -117,7 +117,7 @@ def run(ctx):
     thorough = ctx.tier == "thorough"
     # ---------------- K + S on single strings
     strs = ["", "a", "<&>\"'", "a\rb", "a\r\nb", "\r", "\n", "\t", " x ", "]]>", "&amp;", "&#13;", "\x01", "a\x0bb", "￿", "é", "\U0001f600"] + \
-           [gen_string(rng) for _ in range(3000 if thorough else 500)]
+           [gen_string(rng) for _ in range(9000 if thorough else 500)]
     # every place a source string is written into the .ui: element text (plain, translatable, item, string list, pixmap, icon file, key sequence, tab
     # attributes) and attribute values (icon theme)
     SDOC = ("import qmluic.QtWidgets\nQWidget {\n  windowIcon.name: %(s)s\n  QLabel { id: x; text: %(s)s }\n  QComboBox { id: y; model: [%(s)s, \"z\"] }\n"
@@ -184,7 +184,7 @@ def run(ctx):
             ctx.broke("K", "attribute writing (xmlutil.rs escaped_attribute) vs model/Xml.v escape_attr", "written bytes differ from the model on %d strings, e.g. %s" % (len(bad), aterms[bad[0]]))
     # ---------------- S on whole documents
     g = gdoc.DocGen(rng)
-    documents = [gdoc.to_qml(g.document()) for _ in range(1500 if thorough else 250)]
+    documents = [gdoc.to_qml(g.document()) for _ in range(4000 if thorough else 250)]
     base = docs.corpus()
     documents += base
     for d in base:
